@@ -42,3 +42,80 @@ func VHMarkupTotal() {
 	vAssert(res != nil, "a result or an error")
 	vCheckResultSafe(res)
 }
+
+// vFragment: the F-th fragment of a token-level alphabet of marker pieces (symbolic letter, digit and
+// non-ASCII byte so that multi-byte characters and invalid UTF-8 are included).
+func vFragment(tag string, f int) string {
+	switch f {
+	case 0:
+		return "["
+	case 1:
+		return "]"
+	case 2:
+		return "[/"
+	case 3:
+		return "/]"
+	case 4:
+		return "="
+	case 5:
+		return " "
+	case 6:
+		return "\\["
+	case 7:
+		return ":"
+	case 8:
+		return "\""
+	case 9:
+		c := vByte(tag + ".letter")
+		vAssume(vAnd(c >= 'a', c <= 'z'))
+		return string([]byte{c})
+	case 10:
+		c := vByte(tag + ".digit")
+		vAssume(vAnd(c >= '0', c <= '9'))
+		return string([]byte{c})
+	case 11:
+		return "\xc3\xa9" // é
+	case 12:
+		c := vByte(tag + ".high") // any byte >= 0x80: continuation bytes, invalid lead bytes, ...
+		vAssume(c >= 0x80)
+		return string([]byte{c})
+	case 13:
+		return "[nomarkup]"
+	case 14:
+		return "[/nomarkup]"
+	case 15:
+		return "[select value=a a="
+	case 16:
+		return "[a]"
+	case 17:
+		return "[/a]"
+	case 18:
+		return "[b/]"
+	case 19:
+		return "[/]"
+	}
+	return "x"
+}
+
+const vFragments = 21
+
+// VHMarkupAssembly: lines assembled from K fragments of the alphabet above: total, and safe to use.
+func VHMarkupAssembly() {
+	k := vParam("K", 3)
+	line := ""
+	for i := 0; i < k; i++ {
+		line += vFragment("frag"+vItoa(i), vChoose("frag"+vItoa(i)+".kind", vFragments))
+	}
+	var res *ParseResult
+	var err error
+	lp := LineParser{}
+	panicked := vTry(func() { res, err = lp.ParseMarkup(line) })
+	vAssert(!panicked, "ParseMarkup never panics (assembled line)")
+	if err != nil {
+		vReach("error")
+		return
+	}
+	vReach("parsed")
+	vAssert(res != nil, "a result or an error")
+	vCheckResultSafe(res)
+}
